@@ -370,3 +370,9 @@ Fixpoint go_has_prefix (s p : list N) : bool :=
   | _ :: _, [] => false
   | c :: p', d :: s' => N.eqb c d && go_has_prefix s' p'
   end.
+
+(* aio.Open(file): whether the file can be opened, and what it holds, is given from outside:
+   None is a failing open (some error other than io.EOF), Some s the content as the stream the
+   readers work on.  The stream returned with an error is never read. *)
+Definition go_open {St} (empty : St) (o : option St) : St * Z :=
+  match o with Some s => (s, 0%Z) | None => (empty, 2%Z) end.
